@@ -129,6 +129,8 @@ struct WorkerOut {
     scenario_hashes: Vec<u64>,
     hash_seeds: u64,
     maps_created: u64,
+    /// shadow build: runs discarded because a panic unwound inside the simulation
+    tainted_runs: u64,
     violations: Vec<serde_json::Value>,
     samples: Vec<serde_json::Value>,
     wall_s: f64,
@@ -199,9 +201,16 @@ fn c18_worker(a: &Args) -> i32 {
     let mut out = WorkerOut { property: "C18".into(), ..Default::default() };
     let mut dumpf = dump.map(|p| std::io::BufWriter::new(std::fs::File::create(&p).unwrap_or_else(|e| die(&format!("{p}: {e}")))));
     let mut done_indexes: Vec<u64> = Vec::new();
-    let mut i = start + worker;
+    // shadow build: a run during which a panic unwound inside the simulation is discarded and the
+    // worker continues in a fresh process (see sim::PANIC_SEEN); `--resume-at` / `--part` are set
+    // by that re-exec, partial results go to `<out>.part<k>`
+    let part = a.u64("part", 0);
+    let mut i = a.u64("resume-at", start + worker);
+    let mut tainted_at: Option<u64> = None;
     let maps0 = cooklang::verif_seam::created();
     'outer: while i < start + runs {
+        sim::PANIC_SEEN.store(false, std::sync::atomic::Ordering::SeqCst);
+        let tainted = || cfg!(feature = "shadow") && sim::panic_seen();
         let rs = mix3(seed, salt, i);
         if let Some(f) = dumpf.as_mut() {
             writeln!(f, "RUN {i} {rs:016x}").unwrap();
@@ -214,7 +223,15 @@ fn c18_worker(a: &Args) -> i32 {
             let pool2 = pool_arc.clone();
             c18::in_shuttle(move || gen_scenario(rs, &pool2))
         };
+        if tainted() {
+            tainted_at = Some(i);
+            break 'outer;
+        }
         let rp = c18::reference_phase_ordered(&sc, rev);
+        if tainted() {
+            tainted_at = Some(i);
+            break 'outer;
+        }
         if let Some(f) = refsf.as_mut() {
             for (k, v) in &rp.env.refs {
                 writeln!(f, "{i}\t{:016x}\t{k}", rng::fnv(v.as_bytes())).unwrap();
@@ -257,6 +274,10 @@ fn c18_worker(a: &Args) -> i32 {
         while si < scheds.len() {
             let sched = scheds[si].clone();
             let (viol, st) = c18::execute(&rp, &sched, dumpf.is_some());
+            if tainted() {
+                tainted_at = Some(i);
+                break 'outer;
+            }
             if let Some(f) = dumpf.as_mut() {
                 writeln!(f, "EXEC {si}").unwrap();
                 for l in c18::take_log() {
@@ -324,6 +345,19 @@ fn c18_worker(a: &Args) -> i32 {
     }
     out.maps_created = cooklang::verif_seam::created() - maps0;
     out.wall_s = t0.elapsed().as_secs_f64();
+    // continue in a fresh process after a tainted run (only if something is left to do)
+    let out_path = match tainted_at {
+        Some(t) => {
+            out.tainted_runs += 1;
+            if t + workers < start + runs && !out_path.is_empty() && out.violations.is_empty() {
+                format!("{out_path}.part{part}")
+            } else {
+                tainted_at = None;
+                out_path
+            }
+        }
+        None => out_path,
+    };
     if !out_path.is_empty() {
         write_hashes(&out_path, "nontrivial", &out.nontrivial_hashes);
         write_hashes(&out_path, "schedules", &out.schedule_hashes);
@@ -338,6 +372,21 @@ fn c18_worker(a: &Args) -> i32 {
     } else {
         std::fs::write(&out_path, js).unwrap_or_else(|e| die(&format!("{out_path}: {e}")));
     }
+    if let Some(t) = tainted_at {
+        use std::os::unix::process::CommandExt;
+        let mut args: Vec<String> = Vec::new();
+        let mut it = std::env::args().skip(1);
+        while let Some(x) = it.next() {
+            if x == "--resume-at" || x == "--part" {
+                let _ = it.next();
+            } else {
+                args.push(x);
+            }
+        }
+        args.extend(["--resume-at".to_string(), (t + workers).to_string(), "--part".to_string(), (part + 1).to_string()]);
+        let e = std::process::Command::new(std::env::current_exe().unwrap_or_else(|e| die(&format!("current_exe: {e}")))).args(args).exec();
+        die(&format!("re-exec after a tainted run failed: {e}"));
+    }
     if out.violations.is_empty() {
         0
     } else {
@@ -349,9 +398,13 @@ fn replay(a: &Args) -> i32 {
     let path = a.pos.get(1).cloned().unwrap_or_else(|| die("replay needs a file"));
     let text = std::fs::read_to_string(&path).unwrap_or_else(|e| die(&format!("{path}: {e}")));
     let rf: ReplayFile = serde_json::from_str(&text).unwrap_or_else(|e| die(&format!("{path}: {e}")));
-    let (viol, log) = replay_file(&rf, a);
+    let (mut viol, log) = replay_file(&rf, a);
     for l in &log {
         println!("{l}");
+    }
+    if cfg!(feature = "shadow") && rf.property == "C18" && sim::panic_seen() {
+        println!("NOTE: a panic unwound inside the simulation; under the shadow build nothing observed in this process afterwards is reliable (shuttle closes primitives released while panicking), so this replay does not count");
+        viol.clear();
     }
     let same: Vec<&Violation> = viol.iter().filter(|v| v.class == rf.class).collect();
     if let Some(v) = same.first() {
@@ -378,9 +431,9 @@ pub fn replay_file(rf: &ReplayFile, a: &Args) -> (Vec<Violation>, Vec<String>) {
     // a file without a scenario (hang reports) names the run by its provenance only
     if rf.scenario.is_none() {
         let p = rf.provenance.clone().unwrap_or_else(|| die("C18 replay without scenario or provenance"));
-        let pool = Pool::load(&a.str("repo", "/repo"));
+        let pool = std::sync::Arc::new(Pool::load(&a.str("repo", "/repo")));
         let rs = mix3(p.verif_seed, p.salt, p.run_index);
-        let s = gen_scenario(rs, &pool);
+        let s = gen_in_sim(rs, &pool);
         let rp = c18::reference_phase(&s);
         let mut viol = rp.violations.clone();
         for sched in c18::schedules_for(rs, 4, 64) {
@@ -393,11 +446,11 @@ pub fn replay_file(rf: &ReplayFile, a: &Args) -> (Vec<Violation>, Vec<String>) {
     // leaked-state violations need the runs the worker had executed before
     if !rf.prefix_run_indexes.is_empty() && !a.flag("no-prefix") {
         if let Some(p) = &rf.provenance {
-            let pool = Pool::load(&a.str("repo", "/repo"));
+            let pool = std::sync::Arc::new(Pool::load(&a.str("repo", "/repo")));
             log.push(format!("replaying {} earlier runs of the worker first", rf.prefix_run_indexes.len()));
             for &i in &rf.prefix_run_indexes {
                 let rs = mix3(p.verif_seed, p.salt, i);
-                let s = gen_scenario(rs, &pool);
+                let s = gen_in_sim(rs, &pool);
                 let rp = c18::reference_phase(&s);
                 // the same number of executions as the worker made, so that whatever counts
                 // parses is in the same state
@@ -425,6 +478,13 @@ pub fn replay_file(rf: &ReplayFile, a: &Args) -> (Vec<Violation>, Vec<String>) {
         viol.extend(v);
     }
     (viol, log)
+}
+
+/// Scenario generation places faults by counting events with the library's pull parser: in the
+/// shadow build every call into the library must happen inside an execution.
+fn gen_in_sim(rs: u64, pool: &std::sync::Arc<Pool>) -> scenario::Scenario {
+    let p = pool.clone();
+    c18::in_shuttle(move || gen_scenario(rs, &p))
 }
 
 fn main() {
@@ -507,7 +567,7 @@ fn dispatch(cmd: &str, a: &Args) -> i32 {
         "scenario" => {
             let pool = Pool::load(&a.str("repo", "/repo"));
             let rs = mix3(a.u64("seed", 1), a.u64("salt", 1), a.u64("run-index", 0));
-            println!("{}", serde_json::to_string(&gen_scenario(rs, &pool)).unwrap());
+            println!("{}", serde_json::to_string(&gen_in_sim(rs, &std::sync::Arc::new(pool))).unwrap());
             0
         }
         // is the violation of a replay file realisable on real threads / one thread?
@@ -556,7 +616,7 @@ fn dispatch(cmd: &str, a: &Args) -> i32 {
             // regenerate the scenario of a run index and execute it on real OS threads
             let pool = Pool::load(&a.str("repo", "/repo"));
             let rs = mix3(a.u64("seed", 1), a.u64("salt", 1), a.u64("run-index", 0));
-            let sc = gen_scenario(rs, &pool);
+            let sc = gen_in_sim(rs, &std::sync::Arc::new(pool));
             let v = c18::run_real_threads(&sc);
             for x in &v {
                 println!("REAL-THREADS class={} key={} :: {}", x.class, x.key, x.detail);
